@@ -149,11 +149,14 @@ class RefsWorld:
                 after_reject = 2
             else:
                 k = weighted(rng, [('src', 8), ('link', 5), ('plain', 2.5), ('update1', 1), ('uctx_open', 1), ('uctx_close', 1.2), ('ctor', 0.6),
-                                   ('drain', 1.5), ('step', 2), ('reent_over', 0.8), ('trigger', 0.8), ('subv', 1.0), ('sub_gap', 1.0)])
+                                   ('drain', 1.5), ('step', 2), ('reent_over', 0.8), ('trigger', 0.8), ('subv', 1.0), ('sub_gap', 1.0),
+                                   ('subswap', 0.8 if prop == 'C08' else 0)])
             t = rng.randrange(3)
             pn = rng.choice(TPARAMS[:4])
             if k == 'subv':
                 ops.append({'op': 'src', 's': rng.randrange(ns), 'p': 'subv', 'v': rng.randint(0, 4)})
+            elif k == 'subswap':
+                ops.append({'op': 'subswap', 's': rng.randrange(ns), 'v': rng.randint(0, 4)})
             elif k == 'sub_gap':
                 ops.append({'op': 'sub_gap', 't': t, 'v': rng.randint(0, 10), 'how': rng.choice(['plain', 'plain', 'link'])})
             elif k == 'src':
@@ -351,6 +354,7 @@ class _Run:
         self.src = [Src(sub=Leaf()) for _ in range(self.cfg['n_src'])]
         self.msrc = [{'x': 1, 'y': 2, 'subv': 1} for _ in self.src]
         self.tainted = set()          # sources whose last update raised
+        self.stale_msub = set()       # (target, parameter, id(link)) of method links made before the source's sub-object was replaced
         self.base = []
         for i, s in enumerate(self.src):
             self.observe(s, f"S{i}", ('x', 'y'))
@@ -499,6 +503,19 @@ class _Run:
                 if (ti, pn) in self.pending or ((ti, pn) in self.unknown and ref is not None and ref['k'] == 'abind'):
                     continue
                 got = getattr(t, pn)
+                if ref is not None and any(x[2] == id(ref) for x in self.stale_msub):
+                    # known finding: a reference to a method that depends on 'sub.v' watches the Parameter objects it resolved to
+                    # when the link was made; it does not follow a replacement of the sub-object (nor the new one's parameters)
+                    if got != exp or type(got) is not type(exp):
+                        from ..kernel import tolerated
+                        d_ = (f"{where}: T{ti}.{pn} follows {ref} - the method ms depends on 'x' and 'sub.v'; the sub-object of its source "
+                              f"was replaced after the link was made and T{ti}.{pn} holds {got!r}, the reference resolves to {exp!r}")
+                        if 'C08.method_reference_does_not_follow_replaced_subobject' in tolerated('C08'):
+                            self.out.known.append(('C08.method_reference_does_not_follow_replaced_subobject', d_))
+                        else:
+                            self.viol('C08.method_reference_does_not_follow_replaced_subobject', d_)
+                            return
+                    continue
                 if got != exp or type(got) is not type(exp):
                     kind = 'linked' if ref is not None else 'unlinked'
                     clause = 'C08.mirror' if ref is not None else 'C08.unlink'
@@ -600,6 +617,23 @@ class _Run:
             else:
                 self.tainted.add((s, op['p']))
                 self.out.stats['fault.source_went_invalid'] += 1
+            return
+        if k == 'subswap':
+            # the sub-object of a source is replaced by another one: what a method reaches through it changes
+            si = op['s'] % len(self.src)
+            def through(r):
+                return (r['k'] == 'msub' and r['s'] == si) or (r['k'] == 'nested' and any(isinstance(it, dict) and through(it) for it in r['items']))
+            for ti2 in range(len(self.tgt)):
+                for pn2, r in self.links[ti2].items():
+                    if through(r):
+                        self.stale_msub.add((ti2, pn2, id(r)))
+                for _, _, _, link in self.uctx[ti2]:
+                    if link is not None and through(link):
+                        self.stale_msub.add((ti2, None, id(link)))
+            self.msrc[si]['subv'] = op['v']
+            self.model_src_change(si, 'subv')
+            self.src[si].sub = self.Leaf(v=op['v'])
+            self.out.stats['probe.subobject_of_a_source_replaced'] += 1
             return
         if k == 'sub_gap':
             # one link of an object is ended (plain value) or replaced while ANOTHER of its references cannot be resolved: a
